@@ -635,8 +635,34 @@ fn gen_alias(p: &mut Prng, id: String) -> FwCase {
     FwCase { id, kind: "alias".into(), machines, fp, fb, t0: 0, calls, rng_seed: p.next(), extreme: 0, ni: None, prefix: vec![] }
 }
 
+/// long histories on one instance: 260 to 700 calls (past a wrapping u8 call counter or generation stamp),
+/// small counter-heavy machines so that the per-call state (guard flags, slots, pending signal) is exercised
+/// in every call
+fn gen_longhist(p: &mut Prng, id: String) -> FwCase {
+    let mut cfg = GenCfg::default();
+    cfg.dist = DistMode::Const;
+    cfg.max_states = p.range(2, 4) as usize;
+    cfg.density = 70;
+    cfg.counters = true;
+    let n = p.range(1, 3) as usize;
+    let machines: Vec<Machine> = (0..n).map(|_| genm::gen_machine(p, &cfg)).collect();
+    let want = *p.pick(&[260u64, 300, 520, 700]);
+    let mut calls = Vec::new();
+    let mut t: i128 = 0;
+    while (calls.len() as u64) < want {
+        let more = gen_history(p, n, true, 80, false);
+        for (dt, evs) in more {
+            t += (dt % 5_000_000).max(0);
+            calls.push((t, evs));
+        }
+    }
+    calls.truncate(want as usize);
+    FwCase { id, kind: "longhist".into(), machines, fp: 0.0, fb: 0.0, t0: 0, calls, rng_seed: p.next(), extreme: 0, ni: None, prefix: vec![] }
+}
+
 pub fn gen_kind(kind: &str, p: &mut Prng, id: String) -> Option<FwCase> {
     match kind {
+        "longhist" => Some(gen_longhist(p, id)),
         "alias" => Some(gen_alias(p, id)),
         "wide" => Some(gen_wide(p, id)),
         "c02frac" => Some(gen_c02frac(p, id)),
